@@ -120,6 +120,9 @@ static VhOp ops[] = {
 #ifdef VH_WITH_TOOL
 	vh_ops_tool,
 #endif
+#ifdef VH_WITH_DANGER
+	vh_ops_danger,
+#endif
 };
 
 #ifdef VH_RO_GLOBALS
